@@ -73,13 +73,27 @@ MODELS = [
 TX_TYPE = {"protein_coding": "mRNA", "tRNA": "tRNA", None: None}
 
 
+GENOME2 = GENOME.translate(str.maketrans("ACGT", "CATG"))  # same length, different bases everywhere
+
+
 def _case(repo, it, S, spec):
+    if len(spec) == 4:
+        # the same models exported twice in one process, the second time on another sequence: the second file must show
+        # the second sequence's proteins (nothing remembered from the first export)
+        _case_on(repo, it, S, spec[:3], GENOME)
+        n, out = _case_on(repo, it, S, spec[:3], GENOME2)
+        return n, [(k + " (second export, other sequence)", msg.replace(": ", " exported after the same models on another sequence: ", 1), q)
+                   for k, msg, q in out if k.startswith(("CDS translation", "export", "record types"))]
+    return _case_on(repo, it, S, spec, GENOME)
+
+
+def _case_on(repo, it, S, spec, genome):
     mi, flavor, upd = spec
     out = []
     m = MODELS[mi]
     F, B = it.enum("CDSFrame"), it.enum("Biotype")
     nm = {0: "ZERO", 1: "ONE", 2: "TWO"}
-    par = chrom_parent(it, GENOME, alphabet="NT_EXTENDED")
+    par = chrom_parent(it, genome, alphabet="NT_EXTENDED")
     txs = []
     for i, t in enumerate(m["txs"]):
         kw = dict(transcript_id=f"{m['id']}.t{i}", transcript_symbol=f"{m['id']}.sym{i}", protein_id=f"{m['id']}.p{i}" if t["cds"] else None,
@@ -139,7 +153,7 @@ def _case(repo, it, S, spec):
         if ty == "CDS":
             mc = t["cds"]
             fr = consistent_frames(mc, m["strand"], t["f0"])
-            seq = "".join(bases(c, m["strand"]) for c in walker(mc, m["strand"], fr))
+            seq = "".join(bases(c, m["strand"], genome) for c in walker(mc, m["strand"], fr))
             wt = translate_ref(seq, table)
             if upd:
                 if list(q.get("translation", [])) != [wt]:
@@ -196,6 +210,7 @@ def _runner(repo, fn):
 
 def rk_writer(ctx):
     specs = [(i, fl, upd) for i in range(len(MODELS)) for fl in ("PROKARYOTIC", "EUKARYOTIC") for upd in (False, True)]
+    specs += [(i, fl, True, "second") for i in range(len(MODELS)) for fl in ("PROKARYOTIC", "EUKARYOTIC")]
     from ..par import pmap
     results = pmap(_runner(ctx.repo, _case), specs, min_items=4)
     results += pmap(_runner(ctx.repo, _fc_case), [("PLUS",), ("MINUS",)], min_items=4)
